@@ -177,7 +177,13 @@ static void run(Src &s) {
     econf_reset_security_settings();
     throw;
   }
-  // ---- after the reset all files are accepted again
+  // ---- after the reset all files are accepted again. The reset has to clear every process-wide restriction, also
+  // the permission rule (the property says nothing about what that rule refuses, so it is only switched on here -
+  // with bits no generated file carries - and never read under)
+  if (s.chance(40)) {
+    econf_requirePermissions(S_ISVTX, S_ISVTX);
+    g_case.tag("permission_rule_before_reset");
+  }
   econf_reset_security_settings();
   ReadResult r2;
   Observed ob2;
